@@ -27,7 +27,7 @@ ENUM = (" thorough additionally cuts one in 100 generated cases after its last c
 
 def hist(test, rule, quick=2500, thorough=160000, floors=None, extra_assume=None, enum=False):
     d = {"pkg": "ipamsim", "test": test, "level": "exploration",
-            "quick": {"checks": quick, "timeout": 900},
+            "quick": {"checks": quick, "shards": 4, "timeout": 900},
             "thorough": {"checks": thorough, "shards": 16, "timeout": 2400},
             "rule": rule + (ENUM if enum else ""), "assumptions": HIST_ASSUME + (extra_assume or []), "floors": floors or {}}
     if enum:
@@ -57,7 +57,7 @@ CHECKS.update({
     "C04": hist("TestC04", GEN + "Biased to same-name re-creation with late/duplicate unbind sources, resync, API release, reloads that keep "
                 "the IP, pod-IP sync. Oracle after every op and scheduler step: every live bound pod's still-configured IP is allocated to "
                 "its key, and the provider was not asked to unassign it. Non-trivial = a release path ran while a same-named replacement "
-                "was live and bound.", floors={"same_name_recreated": 0.3}, enum=True),
+                "was live and bound.", quick=4000, floors={"same_name_recreated": 0.3}, enum=True),
     "C10": hist("TestC10", GEN + "Recording cloud provider with cleanly failing calls. Oracle: per-IP state machine none|on(node) replayed "
                 "over the call log after every op/step (no assign to a second node while assigned, live bound pod's IP on its node, free "
                 "IP unassigned). Non-trivial = a pod identity was bound on two different nodes or a provider call failed.",
